@@ -215,7 +215,15 @@ fn case_json(s: &WriteScn) -> Value {
 
 /// One write call on the real CPU; checks everything except the console bytes.
 fn check_write(ctx: &mut Ctx, s: &WriteScn) -> Option<String> {
+    check_write_fd(ctx, s, 1)
+}
+
+/// The same with another value in the `fd` word of the argument block (the statement does not single out a descriptor).
+fn check_write_fd(ctx: &mut Ctx, s: &WriteScn, fd: u32) -> Option<String> {
     let c = setup_write(&mut ctx.m, s);
+    if fd != 1 {
+        ctx.m.poke_bytes(s.arg, &fd.to_be_bytes());
+    }
     drain();
     let act = ctx.execute(&c);
     let msgs = drain();
@@ -331,6 +339,27 @@ fn c14_units(tier: Tier) -> Vec<Unit> {
             ctx.sample(case_json(&scn[70]));
         }
     }));
+    // ---- the descriptor word: whatever it holds, the bytes are emitted
+    units.push(Unit::new(
+        "write/fd-values",
+        1,
+        "the fd word of the argument block in {0, 1, 2, 3, 4, 255, 2^31 - 1, 2^31, 2^32 - 1} x the first 80 write scenarios: the same single message whatever the descriptor",
+        move |ctx, _| {
+            ensure_socket(ctx);
+            let scn = write_scenarios(Tier::Quick);
+            for fd in [0u32, 1, 2, 3, 4, 255, 0x7fff_ffff, 0x8000_0000, 0xffff_ffff] {
+                for k in 0..80.min(scn.len()) {
+                    ctx.st.cases += 1;
+                    ctx.st.nontrivial += 1;
+                    if let Some(msg) = check_write_fd(ctx, &scn[k], fd) {
+                        let mut cj = case_json(&scn[k]);
+                        cj["fd"] = json!(fd);
+                        ctx.custom_violation("c14", format!("fd = {}: {}", fd, msg), cj, json!(null), json!(null));
+                    }
+                }
+            }
+        },
+    ));
     // ---- set_handler: all vectors 0-255 x handler addresses, then an interrupt of the vector
     units.push(Unit::new(
         "set_handler",
